@@ -464,6 +464,25 @@ def check_format_sites(ctx, rule, module_filter=None, floor=30):
     # a name escaper works on the UTF-8 *bytes* of the name (ISO 32000-1 §7.3.5 / the writers' and readers' convention here):
     # a `char as u8` cast inside one, not dominated by the true edge of an `is_ascii*` test, truncates the code point of a
     # non-ASCII character to its low byte (`é` -> #E9, `图` -> #FE) — a different name, or an undecodable one
+    # every name escaper's pass-through table: only regular characters other than `#` may be written as themselves
+    for k in sorted(escs):
+        if not TK.is_name_escaper_by_constants(facts, k):
+            continue
+        ps = TK.name_pass_set_hir(facts, k)
+        if ps is None:
+            ps = TK.name_pass_set_match(facts, k)
+        key = "name-escaper:%s:pass-through-table" % k
+        if ps is None:
+            ctx.undecided_site(rule, key, "escaper recognised by its constants ('#', hex) but its table is not extractable", facts.fns[k].where())
+            continue
+        bad = ps - TK.REGULAR
+        if bad:
+            ctx.violation(rule, key, "the name escaper %s can write %s as themselves: inside a name `#` introduces an escape and the "
+                          "others end the token, so a name containing them reads back as a different name (e.g. `scan#20a` -> `scan a`) "
+                          "or breaks the object" % (L.short(k), ", ".join("0x%02X" % b for b in sorted(bad)[:8])), facts.fns[k].where(),
+                          {"passed_non_regular": sorted(bad)[:40]})
+        else:
+            ctx.ok(rule, key, "passes only %d regular bytes" % len(ps), facts.fns[k].where())
     for k in sorted(escs):
         f = facts.fns[k]
         for g_ in L.group(facts, k):
